@@ -260,14 +260,21 @@ func getReference(c fcase) *reference {
 	refMu.Unlock()
 
 	r := &reference{}
-	o := runFault(c, "none", 0, true)
+	var o outcome
+	for attempt := 0; attempt < 3; attempt++ { // only a failure repeated three times is reported
+		o = runFault(c, "none", 0, true)
+		if o.TimedOut || o.Infra != "" || (o.Exit == 0 && o.Done) {
+			break
+		}
+		evid.Class("healthy_run_failed_and_retried", 1)
+	}
 	switch {
 	case o.TimedOut:
 		r.Timeout = true
 	case o.Infra != "":
 		r.Err = fmt.Errorf("harness infrastructure: %s", o.Infra)
 	case o.Exit != 0 || !o.Done:
-		r.Err = fmt.Errorf("faultcmd %v (no fault injected) exited with status %d (main returned: %v); stderr: %s",
+		r.Err = fmt.Errorf("faultcmd %v (no fault injected) exited with status %d (main returned: %v) three times in a row; stderr: %s",
 			c.args("none", 0, false), o.Exit, o.Done, tail([]byte(o.Stderr), 600))
 	default:
 		r.T, r.Writes, r.Closes = o.Stream, o.Writes, o.Closes
